@@ -422,9 +422,13 @@ def run_shard(spec, tier, seed):
                 # (then: that text decides) - through the store's own mapping interface, with a second solver
                 if mode == 'file' and outcome == 'value' and n % 5 == 0:
                     good = [x for x in SEEDS[itype] if model(itype, x)[0] == 'value' and x.strip() != s.strip()]
-                    for step in ('delete', 'replace'):
+                    for step in ('delete-another', 'delete', 'replace'):
                         try:
-                            if step == 'delete':
+                            if step == 'delete-another':
+                                # withdrawing an answer that was never given (another input of the same form) takes nothing else away
+                                other = [t_ for t_ in TYPES if t_ != itype][n % (len(TYPES) - 1)]
+                                del store[f'c11.{other}']
+                            elif step == 'delete':
                                 del store[key]
                             elif good:
                                 store[key] = good[(n // 5) % len(good)]
@@ -444,6 +448,8 @@ def run_shard(spec, tier, seed):
                         if not r2:
                             continue
                         ev2 = r2[-1]
+                        if step == 'delete-another' and ev2[2] != 'value':
+                            res.violation(f'C11|{itype}|supplied-input-gone-after-deleting-another', f'{itype}: {s!r} was supplied and read; after `del` of another (never given) input of the same form the read ended {ev2[2]}', {'itype': itype, 'text': s, 'mode': 'read-delete-other-read', 'shard': spec})
                         if step == 'delete' and ev2[2] == 'value':
                             res.violation(f'C11|{itype}|deleted-input-still-read', f'{itype}: {s!r} was read, then deleted from the store; the next read still returned {ev2[3]!r}', {'itype': itype, 'text': s, 'mode': 'read-delete-read', 'shard': spec})
                         if step == 'replace' and ev2[2] == 'value':
